@@ -805,6 +805,83 @@ theorem readFrames_exact (A : Aead K (Aad H) C) (hfree : Aead.Free A) (k : K) (h
             cases f with
             | mk t c' => simp at hty hct; subst hty; rw [hct]
 
+/-! ### end-of-stream check over the reader contract -/
+
+theorem requireEOF_clean {r : ReadRes} (h : requireEOF r = .clean) : r.n = 0 ∧ r.eof = true := by
+  unfold requireEOF at h
+  split at h
+  · cases h
+  · rename_i hn
+    split at h
+    · rename_i he
+      exact ⟨by omega, he⟩
+    · cases h
+
+theorem readFramesVia_cons (A : Aead K (Aad H) C) (k : K) (hh : H) (probe : Probe) (i : Nat) (f : Frame C)
+    (rest : List (Frame C)) (tail : Tail) :
+    readFramesVia A k hh probe i (f :: rest) tail =
+      if f.typ ≠ frameData ∧ f.typ ≠ frameFinal then .error .badType
+      else match A.openIt k ⟨hh, i, f.typ⟩ f.ct with
+        | none => .error .decrypt
+        | some p =>
+          if f.typ = frameFinal then
+            if p ≠ [] then .error .finalPlaintext
+            else match requireEOF (probe (decide (rest = [] ∧ tail = Tail.clean))) with
+              | .clean => .ok []
+              | .trailing => .error .trailing
+              | .noEof => .error .noEof
+          else consChunk p (readFramesVia A k hh probe (i + 1) rest tail) := by
+  rfl
+
+/-- whatever a contract-abiding reader answers to the probe, acceptance implies acceptance by the direct reader -/
+theorem readFramesVia_accept (A : Aead K (Aad H) C) (k : K) (hh : H) (probe : Probe) (hv : probe.Valid) :
+    ∀ (fs : List (Frame C)) (i : Nat) (tail : Tail) (ps : List Bytes),
+      readFramesVia A k hh probe i fs tail = .ok ps → readFrames A k hh i fs tail = .ok ps := by
+  intro fs
+  induction fs with
+  | nil =>
+    intro i tail ps h
+    cases tail <;> simp [readFramesVia] at h
+  | cons f rest ih =>
+    intro i tail ps h
+    rw [readFramesVia_cons] at h
+    rw [readFrames_cons]
+    split at h
+    · cases h
+    · rename_i hty
+      rw [if_neg hty]
+      split at h
+      · cases h
+      · rename_i p hopen
+        split at h
+        · rename_i hfin
+          rw [if_pos hfin]
+          split at h
+          · cases h
+          · rename_i hp
+            rw [if_neg hp]
+            split at h
+            · rename_i hclean
+              have hc := requireEOF_clean hclean
+              by_cases hb : rest = [] ∧ tail = Tail.clean
+              · rw [if_neg (by
+                  intro hor
+                  rcases hor with h1 | h1
+                  · exact h1 hb.1
+                  · exact h1 hb.2)]
+                exact h
+              · exfalso
+                have : decide (rest = [] ∧ tail = Tail.clean) = false := by simp [hb]
+                rw [this] at hc
+                exact hv hc
+            · cases h
+            · cases h
+        · rename_i hfin
+          rw [if_neg hfin]
+          obtain ⟨ps', hr, hps⟩ := consChunk_ok h
+          rw [ih (i + 1) tail ps' hr, hps]
+          rfl
+
 end Frames
 
 /-! ## Load -/
